@@ -97,10 +97,10 @@ pub fn check(em: &Emitted) -> Vec<(String, String)> {
     out
 }
 
-pub fn eval_program(p: &Program) -> Vec<Failure> {
-    let em = emit(p);
+pub fn eval_program(p: &Program, trivia: bool) -> Vec<Failure> {
+    let em = crate::pm::emit_with(p, trivia);
     let witness: String = em.files.iter().map(|f| format!("// {}\n{}", f.name, f.text)).collect::<Vec<_>>().join("\n");
-    let case = json!({ "program": p, "witness": witness });
+    let case = json!({ "program": p, "trivia": trivia, "witness": witness });
     let mut seen = std::collections::BTreeSet::new();
     match guard(|| check(&em)) {
         Ok(problems) => problems.into_iter().filter(|(c, _)| seen.insert(c.clone())).map(|(c, d)| Failure::new(&c, witness.clone(), d, case.clone())).collect(),
@@ -117,7 +117,7 @@ impl Engine for C18 {
         format!(
             "declaration-structure programs: every declaration variant (class with 0..2 template arguments x parent x no/empty/full body; named and anonymous def x parent x body; defsets empty / with named and anonymous defs / nested / with foreach and class inside; multiclass with 0..2 template arguments x parent, defm named and anonymous) \
              inside every wrapper path of length <= {} over {{foreach, let, if-then, if-else}} with and without braces, in one- and two-file layouts; plus the well-scoped scope programs of C05 (nesting depth <= {}). \
-             Expected outline (ordered top-level list, defset members ordered, other children as multisets) and folding ranges are recorded by the emitter. non-trivial = every program; distinct by construction.",
+             Every program is printed twice: plainly and with a comment after every identifier. Expected outline (ordered top-level list, defset members ordered, other children as multisets) and folding ranges are recorded by the emitter. non-trivial = every program; distinct by construction.",
             tier.pick(3, 5),
             tier.pick(3, 5)
         )
@@ -139,13 +139,16 @@ impl Engine for C18 {
                 if !ctx.mine() {
                     return true;
                 }
-                ctx.trace(|| json!({ "program": p }));
-                let fails = eval_program(p);
-                ctx.case(true);
-                ctx.sample(|| json!(emit(p).files[0].text.chars().take(240).collect::<String>()));
-                for f in fails {
-                    ctx.fail(f);
+                // each program in the plain layout and with a comment after every identifier
+                for trivia in [false, true] {
+                    ctx.trace(|| json!({ "program": p, "trivia": trivia }));
+                    let fails = eval_program(p, trivia);
+                    ctx.case(true);
+                    for f in fails {
+                        ctx.fail(f);
+                    }
                 }
+                ctx.sample(|| json!(emit(p).files[0].text.chars().take(240).collect::<String>()));
                 !ctx.expired()
             };
             structure_programs(tier.pick(3, 5), |p| run(ctx, p));
@@ -166,16 +169,18 @@ impl Engine for C18 {
 
     fn eval_case(&self, case: &Value) -> Vec<Failure> {
         let Some(p) = program_of(case) else { return vec![] };
-        guard_on_stack(STACK, || eval_program(&p)).unwrap_or_default()
+        let trivia = case["trivia"].as_bool().unwrap_or(false);
+        guard_on_stack(STACK, || eval_program(&p, trivia)).unwrap_or_default()
     }
 
     fn shrink(&self, case: &Value, _clause: &str) -> Vec<Value> {
         let Some(p) = program_of(case) else { return vec![] };
+        let trivia = case["trivia"].as_bool().unwrap_or(false);
         // deleting a declaration the rest depends on makes a different (ill-formed) program
         shrink_program(&p)
             .into_iter()
             .filter(|q| emit(q).occs.iter().all(|o| o.target.is_some() || !o.judged))
-            .map(|q| json!({ "program": q }))
+            .map(|q| json!({ "program": q, "trivia": trivia }))
             .collect()
     }
 }
